@@ -449,7 +449,7 @@ def h_single(pre_dest: bool, dest_only: bool, cache_a: int, c_x: int, c_rc: int,
     return scenario(False, 1, pre_dest, dest_only, pick(cache_a, 3), c_x, c_rc, 0, xs, [strict] * NRUNS, SEQS[pick(sa, len(SEQS))], [OK], SEQS[pick(sb, 4)], neg_rc, False)
 
 
-def h_vec(nconf_a: int, pre_dest: bool, cache_a: int, cache_a1: int, c_x: int, c_rc: int, x1: int, x2: int, x3: int, sa: int, sa1: int, sb: int, neg_rc: bool) -> bool:
+def h_vec(nconf_a: int, pre_dest: bool, cache_a: int, cache_a1: int, c_x: int, c_rc: int, x1: int, x2: int, x3: int, sa: int, sa1: int, sb: int, neg_rc: bool, strict: bool) -> bool:
     """
     vectorised (per-conformer) job: item a with 1-2 conformers, each sub-job with its own cached output / outcome sequence; item b with one
     (a pre-populated destination is covered by h_single: pre_dest is kept in the signature for replay files and fixed to False)
@@ -458,11 +458,12 @@ def h_vec(nconf_a: int, pre_dest: bool, cache_a: int, cache_a1: int, c_x: int, c
     pre: SPLIT < 0 or (sa == S_A and sa1 == S_2)
     pre: CA < 0 or cache_a == CA
     pre: not pre_dest
+    pre: strict or (c_x == x1 and x1 == x2)
     pre: not QUICK or (nconf_a == 2 and cache_a < 2 and cache_a1 < 2 and sb == 0)
     post: _
     """
     xs = [x1, x2, x3][:2]                      # vectorised histories: two runs in both tiers (three runs of the full product take hours)
-    return scenario(True, pick(nconf_a - 1, 2) + 1, pre_dest, True, pick(cache_a, 3), c_x, c_rc, pick(cache_a1, 3), xs, [True] * 2, SEQS[pick(sa, len(SEQS))], SEQS[pick(sa1, 4)], SEQS[pick(sb, 2)], neg_rc, False)
+    return scenario(True, pick(nconf_a - 1, 2) + 1, pre_dest, True, pick(cache_a, 3), c_x, c_rc, pick(cache_a1, 3), xs, [strict] * 2, SEQS[pick(sa, len(SEQS))], SEQS[pick(sa1, 4)], SEQS[pick(sb, 2)], neg_rc, False)
 
 
 # ------------------------------------------------------------------------------------------------------ the real hash separates different inputs
